@@ -1,6 +1,7 @@
 """C05 — vers text and range objects round-trip losslessly and canonically."""
 from harness import common, layerb as B, schemes as S, textcommon as T
 from harness import corr_textvers as CT
+from harness.known import replay_known  # noqa: F401
 
 from univers import version_range as VR
 from univers.version_constraint import VersionConstraint
@@ -61,6 +62,7 @@ def correspondence(ctx):
             k = rng.choice([1, 1, 2, 3, 4, 5])
             cons = []
             texts = []
+            weak = set()
             tries = 0
             while len(cons) < k and tries < 40:
                 tries += 1
@@ -74,9 +76,11 @@ def correspondence(ctx):
                 try:
                     w = rc.version_class(str(v))
                     if not (w == v) or str(w) != str(v):
-                        ctx.stream(stream)["skipped_version_text_not_roundtripping(C11)"] = \
-                            ctx.stream(stream).get("skipped_version_text_not_roundtripping(C11)", 0) + 1
-                        continue
+                        # the version's own text does not round-trip: then neither does a range that holds it
+                        # (recorded for rpm as K05/K08; anything else is reported)
+                        ctx.stream(stream)["version_text_not_roundtripping"] = \
+                            ctx.stream(stream).get("version_text_not_roundtripping", 0) + 1
+                        weak.add(str(v))
                 except Exception:  # noqa: BLE001
                     continue
                 cons.append(VersionConstraint(comparator=rng.choice([">=", "<=", "!=", "<", ">", "="]), version=v))
@@ -117,8 +121,11 @@ def correspondence(ctx):
             except Exception as e:  # noqa: BLE001
                 why = "parsing the printed text raises %s: %s" % (type(e).__name__, e)
             if why:
+                region = None
+                if weak and rc.scheme == "rpm":
+                    region = "rpm-str-roundtrip"
                 ctx.disagree(stream, text, why, "round trip", True,
-                             {"range_class": rc.__name__, "text": text, "clause": why,
+                             {"range_class": rc.__name__, "text": text, "clause": why, "versions_whose_text_does_not_roundtrip": sorted(weak),
                               "python": "from univers.version_range import VersionRange as R; r=R.from_string(%r); print(str(r))" % text},
-                             spec="round trip")
+                             region=region, spec="round trip")
     ctx.sample({"text": "vers:npm/>=1.0.0|<2.0.0", "roundtrip": str(VersionRange.from_string("vers:npm/>=1.0.0|<2.0.0"))})
